@@ -609,6 +609,13 @@ class Interp:
             if len(hits) >= 1:
                 return hits if len(hits) > 1 else hits[0]
             return None
+        mt = re.match(r'^<([\w:]+)(<.*>)? as ([\w:]+)(<.*>)?>::(\w+)$', c)
+        if mt and mt.group(1).split('::')[-1] in self.T.structs and not mt.group(3).endswith(('VisitMut', 'VisitMutWith', 'Clone', 'Debug', 'PartialEq', 'Deserialize')):
+            # trait method implemented in the crate for a crate type, e.g. <Options as Default>::default
+            tname = mt.group(1).split('::')[-1]
+            hits = [f for f in cands if '<impl at visitor/src/' in f.name and re.search(r'\b' + tname + r'\b', f.sig)]
+            if len(hits) == 1:
+                return hits[0]
         if all(s in self._MODS for s in segs[:-1]):
             hits = [f for f in cands if not f.name.startswith('<') and '<impl' not in f.name and f.name.split('::')[-1] == last
                     and (len(f.name.split('::')) == 1 or f.name.split('::')[:-1] == segs[:-1] or all(s in self._MODS for s in f.name.split('::')[:-1]))]
